@@ -268,4 +268,7 @@ void QXmppPubSubSubscribeOptions::serializeForm(QXmppDataForm &form) const
     serializeEmptyable(form, Type::ListMultiField, NOTIFICATION_RULES, presenceStatesToStringList(d->notificationRules));
     serializeOptional(form, Type::ListSingleField, SUBSCRIPTION_TYPE, d->subscriptionType, subscriptionTypeToString);
     serializeOptional(form, Type::ListSingleField, SUBSCRIPTION_DEPTH, d->subscriptionDepth, subscriptionDepthToString);
+
+    // additional (unknown) fields
+    QXmppExtensibleDataFormBase::serializeForm(form);
 }
